@@ -1,5 +1,6 @@
 import IblVerif.Model.Proto
 import IblVerif.Model.Saturation
+import IblVerif.Model.SaturationBatch
 import IblVerif.Generated.Constants
 open IblVerif IblVerif.Proto IblVerif.Saturation
 
@@ -18,6 +19,16 @@ Line protocol for C16 (parsing/printing only; every computation is `Saturation.s
         mv       `max_voltage` entries (bit patterns in precision md)
         rows     `;`-separated rows of `,`-separated bit patterns (precision dd); `~` = no row, `-` = empty row
       → ok flags=0101… mute=<bits,…> | err ValueError <which>
+    batch <dd> <md> <sl> <ns> <nc> <fs> <v> <p> <wins> <mv> <rows>
+        the recording-long flag vector after `saturation` has been called on every batch of <wins> and written over it, in
+        that order (`Saturation.batched`).  <wins> = `a:b,a:b,…` | `sched:N:T` (`Saturation.schedule`) |
+        `workers:N:T:P:i.j.k` (`Saturation.workerWindows` of workers i, j, k … of P, concatenated in that order)
+      → ok flags=… chain=0|1 wins=a:b,…       (`chain` = `decide (Saturation.Chain ns 0 wins)`)
+    windows <ns> <wins>     → ok chain=0|1 wins=a:b,…    (the batch list alone, e.g. `sched:65536:1024` with the source's constants)
+    maxint <imec 0|1> <version|-> <imMaxInt|->   → ok <int> | err raises      (`Saturation.fullScaleInt (familyOf …)`)
+    rawsat <a> <b> <imec 0|1> <version|-> <imMaxInt|-> <ns> <nc> <rows>
+      → ok maxint=<int> flags=… | err raises     (`Saturation.flags (opsCounts a b)` on raw integer counts, full scale
+                                                  `fullScaleInt (familyOf …)`: "more than a/b of the channels have 50·|raw| > 49·maxInt")
     mute <win> <flags>      → ok mute=<bits,…>          (`Saturation.mute` on a flag string)
     win <M>                 → ok <bits,…>               (Float twin of `Saturation.cosineWin`)
     consts                  → the generated constants the driver uses
@@ -56,47 +67,116 @@ def runSat {α μ : Type} (ops : Ops α μ Float) (ns : Nat) (data : List (List 
   | .error e => showErr e
   | .ok (fl, g) => s!"ok flags={showFlags fl} mute={showF64s g}"
 
+/-- parse the data / range tokens in the precision named by `dd` / `md` and hand the matching IEEE instance to `k` -/
+def withOps (dd md sl : String) (ns nc : Nat) (fs v p : Float) (mv rows : String)
+    (k : {α μ : Type} → Ops α μ Float → List (List α) → List μ → String) : String :=
+  let div64 := sl.startsWith "64"
+  let vr32 := sl = "32r"
+  let ibits : Option Nat := if dd = "i16" then some 16 else if dd = "i32" then some 32 else if dd = "i64" then some 64 else none
+  let shape {α : Type} (d : List (List α)) : Bool := d.length = nc ∧ d.all fun r => r.length = ns
+  match dd, md with
+  | "64", "64" =>
+    match rows? f64List? rows, f64List? mv with
+    | some d, some m => if shape d then k (ops6464 factor fs v p) d m else "bad-op shape"
+    | _, _ => "bad-op"
+  | "32", "64" =>
+    match rows? f32List? rows, f64List? mv with
+    | some d, some m => if shape d then k (ops3264 div64 vr32 factor fs v p) d m else "bad-op shape"
+    | _, _ => "bad-op"
+  | "32", "32" =>
+    match rows? f32List? rows, f32List? mv with
+    | some d, some m => if shape d then k (ops3232 div64 vr32 factor fs v p) d m else "bad-op shape"
+    | _, _ => "bad-op"
+  | "64", "32" =>
+    match rows? f64List? rows, f32List? mv with
+    | some d, some m => if shape d then k (ops6432 factor fs v p) d m else "bad-op shape"
+    | _, _ => "bad-op"
+  | _, _ =>
+    match ibits, md with
+    | some bits, "64" =>
+      match rows? intList? rows, f64List? mv with
+      | some d, some m => if shape d then k (opsI64 bits div64 vr32 factor fs v p) d m else "bad-op shape"
+      | _, _ => "bad-op"
+    | some bits, "32" =>
+      match rows? intList? rows, f32List? mv with
+      | some d, some m => if shape d then k (opsI32 bits div64 vr32 factor fs v p) d m else "bad-op shape"
+      | _, _ => "bad-op"
+    | _, _ => "bad-op"
+
+def pair? (s : String) : Option (Nat × Nat) :=
+  match s.splitOn ":" with
+  | [a, b] => match nat? a, nat? b with
+    | some a, some b => some (a, b)
+    | _, _ => none
+  | _ => none
+
+/-- the batch list of a `batch` request -/
+def wins? (ns : Nat) (s : String) : Option (List (Nat × Nat)) :=
+  match s.splitOn ":" with
+  | ["sched", N, T] =>
+    match nat? N, nat? T with
+    | some N, some T => some (schedule ns N T)
+    | _, _ => none
+  | ["workers", N, T, P, order] =>
+    match nat? N, nat? T, nat? P, (order.splitOn ".").mapM nat? with
+    | some N, some T, some P, some order => some (order.flatMap fun i => workerWindows ns N T P i (ns + 1))
+    | _, _, _, _ => none
+  | _ => if s = "-" then some [] else (s.splitOn ",").mapM pair?
+
+def showWins (w : List (Nat × Nat)) : String :=
+  if w.isEmpty then "-" else ",".intercalate (w.map fun x => s!"{x.1}:{x.2}")
+
 def step (t : List String) : String :=
   match t with
   | ["sat", dd, md, sl, ns, nc, fs, v, p, M, win, mv, rows] =>
-    let div64 := sl.startsWith "64"
-    let vr32 := sl = "32r"
-    let ibits : Option Nat := if dd = "i16" then some 16 else if dd = "i32" then some 32 else if dd = "i64" then some 64 else none
     match nat? ns, nat? nc, f64? fs, scalar? (some (ratF Generated.SAT_V_PER_SEC)) v,
           scalar? (some (ratF Generated.SAT_PROPORTION)) p,
           (if M = "d" then some (Generated.SAT_MUTE_WINDOW : Int) else int? M), f64List? win with
     | some ns, some nc, some fs, some v, some p, some M, some win =>
       if 0 ≤ M ∧ win.length ≠ M.toNat then "bad-op window length" else
-      let shape {α : Type} (d : List (List α)) : Bool := d.length = nc ∧ d.all fun r => r.length = ns
-      match dd, md with
-      | "64", "64" =>
-        match rows? f64List? rows, f64List? mv with
-        | some d, some m => if shape d then runSat (ops6464 factor fs v p) ns d m M win else "bad-op shape"
-        | _, _ => "bad-op"
-      | "32", "64" =>
-        match rows? f32List? rows, f64List? mv with
-        | some d, some m => if shape d then runSat (ops3264 div64 vr32 factor fs v p) ns d m M win else "bad-op shape"
-        | _, _ => "bad-op"
-      | "32", "32" =>
-        match rows? f32List? rows, f32List? mv with
-        | some d, some m => if shape d then runSat (ops3232 div64 vr32 factor fs v p) ns d m M win else "bad-op shape"
-        | _, _ => "bad-op"
-      | "64", "32" =>
-        match rows? f64List? rows, f32List? mv with
-        | some d, some m => if shape d then runSat (ops6432 factor fs v p) ns d m M win else "bad-op shape"
-        | _, _ => "bad-op"
-      | _, _ =>
-        match ibits, md with
-        | some bits, "64" =>
-          match rows? intList? rows, f64List? mv with
-          | some d, some m => if shape d then runSat (opsI64 bits div64 vr32 factor fs v p) ns d m M win else "bad-op shape"
-          | _, _ => "bad-op"
-        | some bits, "32" =>
-          match rows? intList? rows, f32List? mv with
-          | some d, some m => if shape d then runSat (opsI32 bits div64 vr32 factor fs v p) ns d m M win else "bad-op shape"
-          | _, _ => "bad-op"
-        | _, _ => "bad-op"
+      withOps dd md sl ns nc fs v p mv rows fun ops d m => runSat ops ns d m M win
     | _, _, _, _, _, _, _ => "bad-op"
+  | ["batch", dd, md, sl, ns, nc, fs, v, p, wins, mv, rows] =>
+    match nat? ns, nat? nc, f64? fs, scalar? (some (ratF Generated.SAT_V_PER_SEC)) v,
+          scalar? (some (ratF Generated.SAT_PROPORTION)) p with
+    | some ns, some nc, some fs, some v, some p =>
+      match wins? ns wins with
+      | none => "bad-op wins"
+      | some w =>
+        if w.any (fun x => x.2 > ns ∨ x.1 > x.2) then "bad-op window outside the recording" else
+        withOps dd md sl ns nc fs v p mv rows fun ops d m =>
+          match batched ops ns d m w with
+          | .error e => showErr e
+          | .ok fl => s!"ok flags={showFlags fl} chain={if decide (Chain ns 0 w) then 1 else 0} wins={showWins w}"
+    | _, _, _, _, _ => "bad-op"
+  | ["windows", ns, spec] =>
+    match nat? ns with
+    | some ns =>
+      match wins? ns spec with
+      | some w => s!"ok chain={if decide (Chain ns 0 w) then 1 else 0} wins={showWins w}"
+      | none => "bad-op wins"
+    | none => "bad-op"
+  | ["maxint", imec, version, mi] =>
+    let v : Option String := if version = "-" then none else some version
+    match (if mi = "-" then some none else (int? mi).map some) with
+    | none => "bad-op"
+    | some mi =>
+      match fullScaleInt (familyOf (imec = "1") v) mi with
+      | some r => s!"ok {r}"
+      | none => "err raises"
+  | ["rawsat", a, b, imec, version, mi, ns, nc, rows] =>
+    let v : Option String := if version = "-" then none else some version
+    match nat? a, nat? b, (if mi = "-" then some none else (int? mi).map some), nat? ns, nat? nc, rows? intList? rows with
+    | some a, some b, some mi, some ns, some nc, some d =>
+      if d.length = nc ∧ d.all (fun r => r.length = ns) then
+        match fullScaleInt (familyOf (imec = "1") v) mi with
+        | none => "err raises"
+        | some mx =>
+          match flags (opsCounts a b) ns d [mx] with
+          | .error e => showErr e
+          | .ok fl => s!"ok maxint={mx} flags={showFlags fl}"
+      else "bad-op shape"
+    | _, _, _, _, _, _ => "bad-op"
   | ["mute", win, fl] =>
     match f64List? win, flags? fl with
     | some win, some fl => s!"ok mute={showF64s (mute win fl)}"
